@@ -196,6 +196,8 @@ package multinode
 //@   at call Store#1: assert arg0 == submissionCompleted && arg1
 //@   ensures calls(Store) == 1 <==> (calls(SubmitProposal) == 1 && nodeErr() == nil)
 //@   ensures calls(Store) <= 1
+//@   // the waiting submission is woken by this goroutine exactly when it has set the flag: a refusal wakes nobody
+//@   ensures calls(Signal) == calls(Store)
 //@
 //@ func (*Service).submitAggregateAttestations
 //@   requires s != nil && sem != nil && w != nil && submissionCompleted != nil && !isnil(submitter) && len(aggregates) > 0 && aggregates[0] != nil && aggregates[0].Message != nil && aggregates[0].Message.Aggregate != nil && aggregates[0].Message.Aggregate.Data != nil
@@ -204,6 +206,8 @@ package multinode
 //@   at call Store#1: assert arg0 == submissionCompleted && arg1
 //@   ensures calls(Store) == 1 <==> (calls(SubmitAggregateAttestations) == 1 && nodeErr() == nil)
 //@   ensures calls(Store) <= 1
+//@   // the waiting submission is woken by this goroutine exactly when it has set the flag: a refusal wakes nobody
+//@   ensures calls(Signal) == calls(Store)
 //@
 //@ func (*Service).submitBeaconCommitteeSubscriptions
 //@   requires s != nil && sem != nil && w != nil && submissionCompleted != nil && !isnil(submitter) && true
@@ -212,6 +216,8 @@ package multinode
 //@   at call Store#1: assert arg0 == submissionCompleted && arg1
 //@   ensures calls(Store) == 1 <==> (calls(SubmitBeaconCommitteeSubscriptions) == 1 && nodeErr() == nil)
 //@   ensures calls(Store) <= 1
+//@   // the waiting submission is woken by this goroutine exactly when it has set the flag: a refusal wakes nobody
+//@   ensures calls(Signal) == calls(Store)
 //@
 //@ func (*Service).submitProposalPreparations
 //@   requires s != nil && sem != nil && w != nil && submissionCompleted != nil && !isnil(submitter) && true
@@ -220,6 +226,8 @@ package multinode
 //@   at call Store#1: assert arg0 == submissionCompleted && arg1
 //@   ensures calls(Store) == 1 <==> (calls(SubmitProposalPreparations) == 1 && nodeErr() == nil)
 //@   ensures calls(Store) <= 1
+//@   // the waiting submission is woken by this goroutine exactly when it has set the flag: a refusal wakes nobody
+//@   ensures calls(Signal) == calls(Store)
 //@
 //@ func (*Service).submitSyncCommitteeSubscriptions
 //@   requires s != nil && sem != nil && w != nil && submissionCompleted != nil && !isnil(submitter) && true
@@ -228,6 +236,8 @@ package multinode
 //@   at call Store#1: assert arg0 == submissionCompleted && arg1
 //@   ensures calls(Store) == 1 <==> (calls(SubmitSyncCommitteeSubscriptions) == 1 && nodeErr() == nil)
 //@   ensures calls(Store) <= 1
+//@   // the waiting submission is woken by this goroutine exactly when it has set the flag: a refusal wakes nobody
+//@   ensures calls(Signal) == calls(Store)
 //@
 //@ func (*Service).submitSyncCommitteeMessages
 //@   requires s != nil && sem != nil && w != nil && submissionCompleted != nil && !isnil(submitter) && len(messages) > 0 && messages[0] != nil
@@ -237,6 +247,8 @@ package multinode
 //@   assumes call handleSubmitSyncCommitteeMessagesError#1 (e): e == toleratedErr()
 //@   ensures calls(Store) == 1 <==> (calls(SubmitSyncCommitteeMessages) == 1 && (nodeErr() == nil || toleratedErr() == nil))
 //@   ensures calls(Store) <= 1
+//@   // the waiting submission is woken by this goroutine exactly when it has set the flag: a refusal wakes nobody
+//@   ensures calls(Signal) == calls(Store)
 //@
 //@ func (*Service).submitSyncCommitteeContributions
 //@   requires s != nil && sem != nil && w != nil && submissionCompleted != nil && !isnil(submitter) && len(contributionAndProofs) > 0 && contributionAndProofs[0] != nil && contributionAndProofs[0].Message != nil && contributionAndProofs[0].Message.Contribution != nil
@@ -246,6 +258,8 @@ package multinode
 //@   assumes call handleSubmitSyncCommitteeContributionsError#1 (e): e == toleratedErr()
 //@   ensures calls(Store) == 1 <==> (calls(SubmitSyncCommitteeContributions) == 1 && (nodeErr() == nil || toleratedErr() == nil))
 //@   ensures calls(Store) <= 1
+//@   // the waiting submission is woken by this goroutine exactly when it has set the flag: a refusal wakes nobody
+//@   ensures calls(Signal) == calls(Store)
 //@
 //@ // ---- C08: which refusals are tolerated ----
 //@ spec func nodeKind() string
@@ -266,6 +280,8 @@ package multinode
 //@   at call Store#1: assert arg0 == submissionCompleted && arg1
 //@   ensures calls(Store) == 1 <==> (calls(Scatter) == 1 && (nodeErr() == nil || toleratedErr() == nil))
 //@   ensures calls(Store) <= 1
+//@   // the waiting submission is woken by this goroutine exactly when it has set the flag: a refusal wakes nobody
+//@   ensures calls(Signal) == calls(Store)
 //@
 //@ // the work function handed to Scatter offers the chunk it is given, of these attestations
 //@ func (*Service).submitAttestations$1
